@@ -130,6 +130,9 @@ def settings_for(rng, kind, d, ns):
 
 def make_table(rng, n, d, joint):
     rows = []
+    # sometimes one individual has no observed value at all (every feature missing at each of its visits: a subject
+    # followed for the event only, or a table read with drop_full_nan=False): the gauge must hold for it as well
+    blank = rng.randrange(n) if (n >= 3 and rng.random() < 0.35) else None
     for i in range(n):
         nv = rng.randrange(1, 5)
         t0 = rng.uniform(55, 80)
@@ -142,7 +145,9 @@ def make_table(rng, n, d, joint):
                 r["EVENT_TIME"], r["EVENT_BOOL"] = et, eb
             some = False
             for k in range(d):
-                if rng.random() > 0.2 or (k == d - 1 and not some):
+                if i == blank:
+                    r[f"Y{k}"] = float("nan")
+                elif rng.random() > 0.2 or (k == d - 1 and not some):
                     r[f"Y{k}"] = round(rng.uniform(0, 1) * 64) / 64
                     some = True
                 else:
@@ -161,7 +166,7 @@ def build_state(env, chk, rng, kind, d, ns, n_ind, case):
         with core.quiet():
             model = env["BaseModel"].load(st)
             df = pd.DataFrame(rows)
-            data = env["Data"].from_dataframe(df, data_type="joint") if kind == "joint" else env["Data"].from_dataframe(df)
+            data = env["Data"].from_dataframe(df, data_type="joint", drop_full_nan=False) if kind == "joint" else env["Data"].from_dataframe(df, drop_full_nan=False)
             ds = env["Dataset"](data)
             state = model.state.clone(disable_auto_fork=True)
             model.put_data_variables(state, ds)
@@ -304,7 +309,22 @@ def center_case(chk, env, rng, kind, d, ns, n_ind, lines, pending, forced=None):
         tols.append(tol)
         ages_rows.append(ages)
         w_rows.append(w)
+        # the gauge invariant itself, for EVERY individual (also one without any observed value, whose rows of `model` are
+        # masked to 0): log-velocity xi_i + log_v0 (and xi_i + n_log_nu in the joint model) is unchanged
+        for nm in (["log_v0"] + (["n_log_nu"] if kind == "joint" else [])):
+            bsum = (before["xi"].reshape(-1)[i].double() + before[nm].reshape(-1).double())
+            asum = (after["xi"].reshape(-1)[i].double() + after[nm].reshape(-1).double())
+            dev = float((asum - bsum).abs().max())
+            env_g = 8 * EPS32 * (float(before["xi"].abs().max()) + float(before[nm].abs().max()) + abs(m_true) + 1.0)
+            if dev > env_g:
+                fails.append(f"xi + {nm} of individual {i} changed by the re-centring by {dev:.3g} (envelope {env_g:.3g}): its velocity is not what it was")
+        observed_visit = [bool((ds.mask[i, j, :] > 0).any()) for j in range(nvis[i])]
         for j in range(nvis[i]):
+            if not observed_visit[j]:
+                # by design the model value is exactly 0 where no feature of the visit is observed (C06)
+                if float(before["model"][i, j, :].abs().max()) != 0.0 or float(after["model"][i, j, :].abs().max()) != 0.0:
+                    fails.append(f"model value of individual {i} at visit {j} without any observed feature is not 0")
+                continue
             for k in range(d):
                 b, a = float(before["model"][i, j, k]), float(after["model"][i, j, k])
                 worst_model = max(worst_model, abs(a - b))
@@ -389,6 +409,8 @@ def center_case(chk, env, rng, kind, d, ns, n_ind, lines, pending, forced=None):
             "before": [[float(before["model"][i, j, k]) for j in range(nvis[i]) for k in range(d)] for i in range(n)],
             "after": [[float(after["model"][i, j, k]) for j in range(nvis[i]) for k in range(d)] for i in range(n)],
             "tol": [[tols[i][j][k] for j in range(nvis[i]) for k in range(d)] for i in range(n)],
+            # entries of visits at which some feature is observed (elsewhere `model` is 0 by design and is not compared)
+            "obs": [[bool((ds.mask[i, j, :] > 0).any()) for j in range(nvis[i]) for k in range(d)] for i in range(n)],
             "tol_lin": 2 * (n + 2) * EPS32 * (xmax + abs(m_true) + max(abs(x) for x in pop["log_v0"]) + 3.0)}
     lines.append(line)
     pending.append(("gauge", case, impl, None))
@@ -710,10 +732,14 @@ def compare(chk, lines, pending):
                 chk.disagree(case, impl["logv0"], pv(r["logv0"]), "log_v0 after re-centring")
             elif not close_lists(impl["nlognu"], pv(r["nlognu"]), tl):
                 chk.disagree(case, impl["nlognu"], pv(r["nlognu"]), "n_log_nu after re-centring")
-            elif not close_lists(impl["before"], pm(r["before"]), impl["tol"]):
-                chk.disagree(case, impl["before"], pm(r["before"]), "model values before re-centring")
-            elif not close_lists(impl["after"], pm(r["after"]), impl["tol"]):
-                chk.disagree(case, impl["after"], pm(r["after"]), "model values after re-centring")
+            else:
+                def at_observed(rows, ref):
+                    return [[x if o else y for x, y, o in zip(rx, ry, ro)] for rx, ry, ro in zip(rows, ref, impl["obs"])]
+                mb, ma = at_observed(pm(r["before"]), impl["before"]), at_observed(pm(r["after"]), impl["after"])
+                if not close_lists(impl["before"], mb, impl["tol"]):
+                    chk.disagree(case, impl["before"], mb, "model values before re-centring")
+                elif not close_lists(impl["after"], ma, impl["tol"]):
+                    chk.disagree(case, impl["after"], ma, "model values after re-centring")
         elif kind == "nurep":
             if not resp.startswith("before="):
                 chk.disagree(case, impl, resp, "model refused the nu request")
@@ -880,7 +906,7 @@ def replay(chk: core.Check, payload):
             with core.quiet():
                 model = env["BaseModel"].load(case["settings"])
                 df = pd.DataFrame(case["table"])
-                data = env["Data"].from_dataframe(df, data_type="joint") if kind == "joint" else env["Data"].from_dataframe(df)
+                data = env["Data"].from_dataframe(df, data_type="joint", drop_full_nan=False) if kind == "joint" else env["Data"].from_dataframe(df, drop_full_nan=False)
                 ds = env["Dataset"](data)
                 state = model.state.clone(disable_auto_fork=True)
                 model.put_data_variables(state, ds)
